@@ -1,30 +1,26 @@
 """C15 implementation driver: runs the real summed-analysis code on abstract cases.
 
 Schedules of the parallel pool are steered from outside: after the real AnalysisPool has been
-created (by the real `n_cores` setter) the *main-process side* of every `process.queue` is wrapped
-by a proxy whose `empty()` follows a scripted availability mask (one list of booleans per pass of
-`for process in self.processes` in AnalysisPool.results).  "not available" answers True (the item
-has not arrived yet - a legal timing), "available" blocks until the worker really delivered the
-item and answers False.  Workers, queues, pickling, __call__, results and map are the real code.
+created (by the real `n_cores` setter or by the constructor reading general.yaml) the *main-process
+side* of every `process.queue` is wrapped by a proxy whose `empty()` follows a scripted
+availability mask (one list of booleans per pass of `for process in self.processes` in
+AnalysisPool.results).  "not available" answers True (the item has not arrived yet - a legal
+timing), "available" blocks until the worker really delivered the item and answers False.
+Workers, queues, pickling, __call__, results and map are the real code.
+
+Requires the fork start method (the harness analyses and model classes live in __main__).
 """
 import json
 import logging
+import multiprocessing
 import os
 import queue as pyqueue
+import shutil
 import sys
 import time
 import zipfile
 
 from vimpl_common import setup, exc_name
-
-af, conf = setup()
-logging.disable(logging.CRITICAL)
-
-import autofit.exc as exc  # noqa: E402
-from autofit.non_linear.analysis.combined import CombinedAnalysis  # noqa: E402
-from autofit.non_linear.analysis.indexed import IndexedAnalysis, IndexCollectionAnalysis  # noqa: E402
-from autofit.non_linear.analysis.free_parameter import FreeParameterAnalysis  # noqa: E402
-from autofit.non_linear.analysis.model_analysis import ModelAnalysis, CombinedModelAnalysis  # noqa: E402
 
 WAIT = float(os.environ.get("C15_WAIT", "30"))
 CASE_LIMIT = int(os.environ.get("C15_CASE_LIMIT", "240"))
@@ -58,56 +54,78 @@ class P4:
 
 
 PCLS = {1: P1, 2: P2, 3: P3, 4: P4}
+af = conf = exc = None
+CombinedAnalysis = IndexedAnalysis = FreeParameterAnalysis = ModelAnalysis = CombinedModelAnalysis = None
+VA = None
 
 
-class VA(af.Analysis):
-    """Harness analysis j: c + sum(w_k * value_k); raises FitException when value_0 is listed."""
+def define_va():
+    class _VA(af.Analysis):
+        """Harness analysis j: (c + sum(w_k * value_k)) / scale; raises FitException (ValueError) when value_0 is
+        in `fail` (`fail2`); visualize raises likewise for `vfail` / `vfail2`."""
 
-    def __init__(self, j, c, w, fail, paths=None):
-        self.j = j
-        self.c = c
-        self.w = list(w)
-        self.fail = list(fail)
-        self.paths = paths
+        def __init__(self, j, ad, paths=None, scale=1):
+            self.j = j
+            self.c = ad.get("c", 0)
+            self.w = list(ad.get("w", []))
+            self.fail = list(ad.get("fail", []))
+            self.fail2 = list(ad.get("fail2", []))
+            self.vfail = list(ad.get("vfail", []))
+            self.vfail2 = list(ad.get("vfail2", []))
+            self.paths = paths
+            self.scale = scale
 
-    def values(self, instance):
-        if self.paths is None:
-            return [instance]
-        out = []
-        for comp, arg in self.paths:
-            out.append(getattr(getattr(instance, comp), arg))
-        return out
+        def values(self, instance):
+            if self.paths is None:
+                return [instance]
+            return [getattr(getattr(instance, comp), arg) for comp, arg in self.paths]
 
-    def log_likelihood_function(self, instance):
-        s = self.values(instance)
-        if s and s[0] in self.fail:
-            raise exc.FitException("scripted failure of analysis %d" % self.j)
-        return float(self.c + sum(a * b for a, b in zip(self.w, s)))
+        def log_likelihood_function(self, instance):
+            s = self.values(instance)
+            if s and s[0] in self.fail:
+                raise exc.FitException("scripted failure of analysis %d" % self.j)
+            if s and s[0] in self.fail2:
+                raise ValueError("scripted failure of analysis %d" % self.j)
+            return float(self.c + sum(a * b for a, b in zip(self.w, s))) / self.scale
 
-    def save_attributes(self, paths):
-        paths.save_json("tag_attr", {"j": self.j})
+        def save_attributes(self, paths):
+            paths.save_json("tag_attr", {"j": self.j})
 
-    def save_results(self, paths, result):
-        paths.save_json("tag_res", {"j": self.j})
+        def save_results(self, paths, result):
+            paths.save_json("tag_res", {"j": self.j, "got": getattr(result, "va_tag", -1)})
 
-    def visualize(self, paths, instance, during_analysis):
-        os.makedirs(paths.output_path, exist_ok=True)
-        with open(os.path.join(str(paths.output_path), "viz_%d.txt" % self.j), "w") as f:
-            f.write("x")
+        def visualize_before_fit(self, paths, model):
+            os.makedirs(paths.output_path, exist_ok=True)
+            with open(os.path.join(str(paths.output_path), "vbf_%d.txt" % self.j), "w") as f:
+                f.write("x")
 
-    def make_result(self, samples_summary, paths, samples=None, search_internal=None, analysis=None):
-        r = super().make_result(samples_summary=samples_summary, paths=paths, samples=samples,
-                                search_internal=search_internal, analysis=analysis)
-        r.va_tag = self.j
-        return r
+        def visualize(self, paths, instance, during_analysis):
+            s = self.values(instance)
+            if s and s[0] in self.vfail:
+                raise exc.FitException("scripted visualize failure of analysis %d" % self.j)
+            if s and s[0] in self.vfail2:
+                raise ValueError("scripted visualize failure of analysis %d" % self.j)
+            os.makedirs(paths.output_path, exist_ok=True)
+            with open(os.path.join(str(paths.output_path), "viz_%d.txt" % self.j), "w") as f:
+                f.write("x")
+
+        def make_result(self, samples_summary, paths, samples=None, search_internal=None, analysis=None):
+            r = super().make_result(samples_summary=samples_summary, paths=paths, samples=samples,
+                                    search_internal=search_internal, analysis=analysis)
+            r.va_tag = self.j
+            return r
+
+    _VA.__name__ = _VA.__qualname__ = "VA"
+    return _VA
 
 
 # ---------------------------------------------------------------------------------------
 # steering proxies
 # ---------------------------------------------------------------------------------------
 class Steer:
-    def __init__(self, pool):
+    def __init__(self, pool, steered=True):
         self.pool = pool
+        self.steered = steered
         self.sizes = [len(p.analyses) for p in pool.processes]
         self.pending = [0] * len(pool.processes)
         self.masks = []
@@ -116,11 +134,13 @@ class Steer:
         self.real = []
         for i, p in enumerate(pool.processes):
             self.real.append(p.queue)
-            p.queue = QProxy(self, i, p.queue)
+            if steered:
+                p.queue = QProxy(self, i, p.queue)
 
     def begin_call(self, masks):
-        for i, n in enumerate(self.sizes):
-            self.pending[i] += n
+        if self.steered:
+            for i, n in enumerate(self.sizes):
+                self.pending[i] += n
         self.masks = masks
         self.sweep = -1
         self.progress = time.time()
@@ -137,7 +157,7 @@ class Steer:
                     break
             while True:
                 try:
-                    items.append(q.get(timeout=0.03))
+                    items.append(q.get(timeout=0.05 if self.steered else 0.3))
                 except pyqueue.Empty:
                     break
             out.append([enc_result(x) for x in items])
@@ -156,8 +176,7 @@ class Steer:
                     p.join(1)
             except Exception:
                 pass
-        # the pool's __del__ would terminate again; make that a no-op
-        pool.processes = []
+        pool.processes = []      # the pool's __del__ would terminate again; make that a no-op
 
 
 class QProxy:
@@ -198,6 +217,8 @@ class QProxy:
 def enc_result(x):
     if isinstance(x, BaseException):
         return ["exc", exc_name(x)]
+    if x is None:
+        return ["val", (0.0).hex()]
     try:
         f = float(x)
     except Exception:
@@ -205,17 +226,28 @@ def enc_result(x):
     return ["val", f.hex()]
 
 
+def kill_children():
+    for p in multiprocessing.active_children():
+        try:
+            p.kill()
+            p.join(1)
+        except Exception:
+            pass
+
+
 # ---------------------------------------------------------------------------------------
 # building analyses and models
 # ---------------------------------------------------------------------------------------
-def build_expr(node, leaf):
+def build_expr(node, leaf, free_args):
     if "j" in node:
         return leaf(node)
     if "add" in node:
         a, b = node["add"]
-        return build_expr(a, leaf) + build_expr(b, leaf)
+        return build_expr(a, leaf, free_args) + build_expr(b, leaf, free_args)
     if "sum" in node:
-        return sum(build_expr(x, leaf) for x in node["sum"])
+        return sum(build_expr(x, leaf, free_args) for x in node["sum"])
+    if "free" in node:
+        return build_expr(node["free"], leaf, free_args).with_free_parameters(*free_args())
     raise ValueError(node)
 
 
@@ -261,191 +293,200 @@ def well_indexed(desc):
         it[0] == "idx" and it[3] == k for k, it in enumerate(desc["items"]))
 
 
-def run_history(combined, ops, make_instance):
-    answers = []
+def written_folders(root, prefix):
+    """[(folder index, analysis id)] of files <prefix><j>.txt below root"""
+    out = []
+    for r, _, files in os.walk(root):
+        for fn in files:
+            if fn.startswith(prefix) and fn.endswith(".txt"):
+                rel = os.path.relpath(r, root).replace(os.sep, "/")
+                folder = -1
+                for part in rel.split("/"):
+                    if part.startswith("analysis_"):
+                        try:
+                            folder = int(part.split("_")[1])
+                        except ValueError:
+                            pass
+                out.append([folder, int(fn[len(prefix):-4])])
+    return sorted(out)
+
+
+def run_history(combined, ops, make_instance, tag, steered=True):
+    outs = []
     steer = None
     try:
         if (combined.n_cores or 1) > 1 and combined._analysis_pool is not None:
-            steer = Steer(combined._analysis_pool)       # pool created by the constructor (config n_cores)
-        for op in ops:
+            steer = Steer(combined._analysis_pool, steered)       # pool created by the constructor (config n_cores)
+        for k, op in enumerate(ops):
             if op[0] == "cores":
-                if steer is not None:
+                if op[1] > 1 and steer is not None:
                     steer.close()
                     steer = None
                 combined.n_cores = op[1]
                 if op[1] > 1:
-                    steer = Steer(combined._analysis_pool)
-            else:
-                inst = make_instance(op[1])
-                if steer is not None:
-                    steer.begin_call(op[2])
+                    steer = Steer(combined._analysis_pool, steered)
+                continue
+            inst = make_instance(op[1])
+            if steer is not None and (op[0] == "map" or combined.n_cores > 1):
+                steer.begin_call(op[2])
+            if op[0] == "eval":
                 try:
-                    v = combined.log_likelihood_function(inst)
-                    answers.append(enc_result(v))
+                    outs.append({"ans": enc_result(combined.log_likelihood_function(inst))})
                 except SteerTimeout:
                     raise
                 except Exception as e:  # noqa
-                    answers.append(["exc", exc_name(e)])
+                    outs.append({"ans": ["exc", exc_name(e)]})
+            else:
+                paths = af.DirectoryPaths(name="c15_%s_%d" % (tag, k))
+                try:
+                    ans = enc_result(combined.visualize(paths, inst, False))
+                except SteerTimeout:
+                    raise
+                except Exception as e:  # noqa
+                    ans = ["exc", exc_name(e)]
+                root = str(paths.output_path)
+                outs.append({"ans": ans, "written": written_folders(root, "viz_")})
+                shutil.rmtree(os.path.dirname(root), ignore_errors=True)
         residue = steer.residue() if steer is not None else []
-        return {"answers": answers, "residue": residue}
+        return {"outs": outs, "residue": residue}
     finally:
         if steer is not None:
             steer.close()
 
 
-def mk_leaf(c, paths=None, models=None):
-    ads = c["ads"]
+def run_case(c, idx):
+    kind = c["kind"]
+    scale = c.get("scale", 1)
+    shape = c.get("shape")
+    sl = slots(shape) if shape else None
+    priors = {}
+    default = build_model(shape, c["default"], priors) if shape else None
+    models = {int(j): build_model(shape, pids, priors) for j, pids in c.get("own", {}).items()} if shape else {}
+    cache = {}
 
     def leaf(node):
         j = node["j"]
-        a = VA(j, ads[j]["c"], ads[j]["w"], ads[j]["fail"], paths)
+        key = (j, bool(node.get("hm")))
+        if key in cache:                      # the same object when an analysis is written twice
+            return cache[key]
+        ad = c["ads"][j] if "ads" in c else {}
+        a = VA(j, ad, sl, scale)
         if node.get("hm"):
-            return a.with_model(models[j])
+            a = a.with_model(models[j] if j in models else af.Model(P1, a0=af.UniformPrior(0.0, 1.0)))
+        cache[key] = a
         return a
-    return leaf
 
+    def free_args():
+        items = []
+        for it in c.get("free") or [{"prior": 0}]:
+            if "prior" in it:
+                pid = it["prior"]
+                if pid not in priors:
+                    priors[pid] = af.UniformPrior(lower_limit=-1000.0, upper_limit=1000.0)
+                items.append(priors[pid])
+            else:
+                items.append(getattr(default, "c%d" % it["component"]))
+        return items
 
-def run_case(c, idx):
-    kind = c["kind"]
-    if kind == "struct":
-        comb = build_expr(c["expr"], lambda n: (VA(n["j"], 0, [], []).with_model(af.Model(P1, a0=af.UniformPrior(0.0, 1.0)))
-                                                  if n.get("hm") else VA(n["j"], 0, [], [])))
-        if c.get("free"):
-            comb = comb.with_free_parameters(af.UniformPrior(0.0, 1.0))
-        return {"struct": describe(comb)}
-    if kind == "hist":
-        general = conf.instance["general"]["analysis"]
-        original = general["n_cores"]
+    general = conf.instance["general"]["analysis"]
+    original = general["n_cores"]
+    try:
+        if c.get("conf_cores"):
+            general["n_cores"] = c["conf_cores"]     # read by CombinedAnalysis.__init__
         try:
-            if c.get("conf_cores"):
-                general["n_cores"] = c["conf_cores"]     # read by CombinedAnalysis.__init__
-            comb = build_expr(c["expr"], mk_leaf(c))
-        finally:
-            general["n_cores"] = original
-        out = {"struct": describe(comb)}
-        out.update(run_history(comb, c["ops"], lambda x: x))
-        return out
-    if kind == "idx":
-        shape = c["shape"]
-        priors = {}
-        default = build_model(shape, c["default"], priors)
-        models = {int(j): build_model(shape, pids, priors) for j, pids in c.get("own", {}).items()}
-        sl = slots(shape)
-        comb = build_expr(c["expr"], mk_leaf(c, sl, models))
-        if c.get("free") is not None:
-            items = []
-            for it in c["free"]:
-                if "prior" in it:
-                    pid = it["prior"]
-                    if pid not in priors:
-                        priors[pid] = af.UniformPrior(lower_limit=-1000.0, upper_limit=1000.0)
-                    items.append(priors[pid])
-                else:
-                    items.append(getattr(default, "c%d" % it["component"]))
-            comb = comb.with_free_parameters(*items)
+            comb = build_expr(c["expr"], leaf, free_args)
+        except (TypeError, AttributeError) as e:
+            return {"struct": {"kind": "error", "exc": exc_name(e), "items": []}, "classes": [], "count": 0,
+                    "outs": [], "residue": []}
         desc = describe(comb)
-        out = {"struct": desc, "classes": [], "count": 0, "answers": [], "residue": []}
-        if not well_indexed(desc):
+        if kind == "struct":
+            return {"struct": desc}
+        if kind == "hist":
+            out = {"struct": desc}
+            general["n_cores"] = original
+            out.update(run_history(comb, c["ops"], lambda x: x, "h%d" % idx, not c.get("unsteered")))
             return out
-        modified = comb.modify_model(default)
-        numbering = {}
-        classes = []
-        cls_prior = {}
-        for sub in modified:
-            row = []
-            for comp, arg in sl:
-                p = getattr(getattr(sub, comp), arg)
-                if p.id not in numbering:
-                    numbering[p.id] = len(numbering)
-                    cls_prior[numbering[p.id]] = p
-                row.append(numbering[p.id])
-            classes.append(row)
-        out["classes"] = classes
-        out["count"] = modified.prior_count
-        out["n_models"] = len(modified)
+        if kind == "idx":
+            general["n_cores"] = original
+            out = {"struct": desc, "classes": [], "count": 0, "outs": [], "residue": []}
+            if not well_indexed(desc):
+                return out
+            modified = comb.modify_model(default)
+            numbering, classes, cls_prior = {}, [], {}
+            for sub in modified:
+                row = []
+                for comp, arg in sl:
+                    p = getattr(getattr(sub, comp), arg)
+                    if p.id not in numbering:
+                        numbering[p.id] = len(numbering)
+                        cls_prior[numbering[p.id]] = p
+                    row.append(numbering[p.id])
+                classes.append(row)
+            out["classes"] = classes
+            out["count"] = modified.prior_count
+            out["n_models"] = len(modified)
 
-        def make_instance(vals):
-            args = {p: float(vals[k]) for k, p in cls_prior.items()}
-            return modified.instance_for_arguments(args)
+            def make_instance(vals):
+                return modified.instance_for_arguments({p: float(vals[k]) for k, p in cls_prior.items()})
 
-        out.update(run_history(comb, c["ops"], make_instance))
-        return out
-    if kind == "folders":
-        ids = c["ids"]
-        comb = build_expr({"sum": [{"j": j} for j in ids]}, lambda n: VA(n["j"], 0, [], []))
-        steer_pool = None
-        try:
-            comb.n_cores = c["cores"]
-            steer_pool = comb._analysis_pool if c["cores"] > 1 else None
-            paths = af.DirectoryPaths(name="c15_folders_%d" % idx)
-            comb.visualize(paths, None, False)
-            found = {}
-            root = str(paths.output_path)
-            for r, _, files in os.walk(root):
-                for fn in files:
-                    if fn.startswith("viz_"):
-                        rel = os.path.relpath(r, root).replace(os.sep, "/")
-                        found.setdefault(int(fn[4:-4]), []).append(rel)
-            obs = []
-            for j in ids:
-                for rel in sorted(found.get(j, [])):
-                    if rel.startswith("analyses/analysis_"):
-                        obs.append([int(rel.split("_")[-1]), j])
-                    else:
-                        obs.append([-1, j])
-            return {"folders": obs}
-        finally:
-            if steer_pool is not None:
-                try:
-                    steer_pool.terminate()
-                    for p in steer_pool.processes:
-                        if p.is_alive():
-                            p.kill()
-                    steer_pool.processes = []
-                except Exception:
-                    pass
-    if kind == "fit":
-        shape = c["shape"]
-        priors = {}
-        default = build_model(shape, c["default"], priors)
-        sl = slots(shape)
-        ids = c["ids"]
-        c2 = dict(c)
-        comb = build_expr({"sum": [{"j": j} for j in ids]}, mk_leaf(c2, sl, {}))
-        comb = comb.with_free_parameters(*[priors[pid] for pid in c["free"]])
-        search = af.m.MockSearch(name="c15_fit_%d" % idx)
-        result = search.fit(default, comb)
-        fitted = search.paths.model
-        sub_ids = [[p.id for p in sub.priors_ordered_by_id] for sub in fitted]
-        children = []
-        for r in result.child_results:
-            ids_r = [p.id for p in r.model.priors_ordered_by_id]
-            k = [i for i, s in enumerate(sub_ids) if s == ids_r]
-            children.append([getattr(r, "va_tag", -1), k[0] if len(k) == 1 else -1])
-        attr, res = [], []
-        zpath = str(search.paths.output_path) + ".zip"
-        names = {}
-        if os.path.exists(zpath):
-            with zipfile.ZipFile(zpath) as z:
-                for nm in z.namelist():
-                    if nm.endswith("tag_attr.json") or nm.endswith("tag_res.json"):
-                        names[nm] = json.loads(z.read(nm))
-        else:
-            root = str(search.paths.output_path)
-            for r_, _, files in os.walk(root):
-                for fn in files:
-                    if fn in ("tag_attr.json", "tag_res.json"):
-                        nm = os.path.relpath(os.path.join(r_, fn), root).replace(os.sep, "/")
-                        names[nm] = json.load(open(os.path.join(r_, fn)))
-        for nm in sorted(names):
-            parts = nm.split("/")
-            folder = -1
-            for part in parts:
-                if part.startswith("analysis_"):
-                    folder = int(part.split("_")[1])
-            (attr if nm.endswith("tag_attr.json") else res).append([folder, names[nm]["j"]])
-        return {"attr": sorted(attr), "res": sorted(res), "children": children, "n_models": len(fitted)}
-    raise ValueError(kind)
+            out.update(run_history(comb, c["ops"], make_instance, "i%d" % idx))
+            return out
+        if kind == "fit":
+            search = af.m.MockSearch(name="c15_fit_%d" % idx)
+            result = search.fit(default, comb)
+            fitted = search.paths.model
+            subs = [fitted] if desc["kind"] == "plain" else list(fitted)
+            numbering = {}
+            for sub in subs:
+                for comp, arg in sl:
+                    p = getattr(getattr(sub, comp), arg)
+                    numbering.setdefault(p.id, len(numbering))
+            children = []
+            for r in result.child_results:
+                row = []
+                for comp, arg in sl:
+                    try:
+                        row.append(numbering.get(getattr(getattr(r.model, comp), arg).id, -1))
+                    except AttributeError:
+                        row.append(-1)
+                children.append([getattr(r, "va_tag", -1), row])
+            names, vbf = {}, []
+            zpath = str(search.paths.output_path) + ".zip"
+            if os.path.exists(zpath):
+                with zipfile.ZipFile(zpath) as z:
+                    for nm in z.namelist():
+                        if nm.endswith("tag_attr.json") or nm.endswith("tag_res.json"):
+                            names[nm] = json.loads(z.read(nm))
+                        base = nm.split("/")[-1]
+                        if base.startswith("vbf_") and base.endswith(".txt"):
+                            folder = -1
+                            for part in nm.split("/"):
+                                if part.startswith("analysis_"):
+                                    folder = int(part.split("_")[1])
+                            vbf.append([folder, int(base[4:-4])])
+            else:
+                root = str(search.paths.output_path)
+                vbf = written_folders(root, "vbf_")
+                for r_, _, files in os.walk(root):
+                    for fn in files:
+                        if fn in ("tag_attr.json", "tag_res.json"):
+                            nm = os.path.relpath(os.path.join(r_, fn), root).replace(os.sep, "/")
+                            names[nm] = json.load(open(os.path.join(r_, fn)))
+            attr, res = [], []
+            for nm in sorted(names):
+                folder = -1
+                for part in nm.split("/"):
+                    if part.startswith("analysis_"):
+                        folder = int(part.split("_")[1])
+                if nm.endswith("tag_attr.json"):
+                    attr.append([folder, names[nm]["j"]])
+                else:
+                    res.append([folder, names[nm]["j"], names[nm].get("got", -1)])
+            return {"struct": desc, "attr": sorted(attr), "vbf": sorted(vbf), "res": sorted(res), "children": children,
+                    "n_models": len(subs)}
+        raise ValueError(kind)
+    finally:
+        general["n_cores"] = original
 
 
 def _alarm(signum, frame):
@@ -453,7 +494,21 @@ def _alarm(signum, frame):
 
 
 def main():
+    global af, conf, exc, VA
+    global CombinedAnalysis, IndexedAnalysis, FreeParameterAnalysis, ModelAnalysis, CombinedModelAnalysis
     import signal
+    af, conf = setup()
+    logging.disable(logging.CRITICAL)
+    import autofit.exc as exc_
+    exc = exc_
+    from autofit.non_linear.analysis.combined import CombinedAnalysis as CA
+    from autofit.non_linear.analysis.indexed import IndexedAnalysis as IA
+    from autofit.non_linear.analysis.free_parameter import FreeParameterAnalysis as FA
+    from autofit.non_linear.analysis.model_analysis import ModelAnalysis as MA, CombinedModelAnalysis as CMA
+    CombinedAnalysis, IndexedAnalysis, FreeParameterAnalysis, ModelAnalysis, CombinedModelAnalysis = CA, IA, FA, MA, CMA
+    VA = define_va()
+    globals()["VA"] = VA          # picklable by reference as __main__.VA
+
     cases = json.load(open(sys.argv[1]))["cases"]
     out = []
     signal.signal(signal.SIGALRM, _alarm)
@@ -465,13 +520,16 @@ def main():
             finally:
                 signal.alarm(0)
         except SteerTimeout as e:
-            out.append({"exc": "SteerTimeout", "msg": str(e)})
+            out.append({"timeout": str(e)})
         except BaseException as e:  # noqa
             out.append({"exc": exc_name(e), "msg": str(e)[:300]})
+        kill_children()
     with open(sys.argv[2], "w") as f:
-        json.dump({"results": out}, f)
+        json.dump({"results": out, "env": {k: os.environ[k] for k in ("C15_WAIT", "C15_CASE_LIMIT") if k in os.environ},
+                   "start_method": multiprocessing.get_start_method()}, f)
     sys.stdout.flush()
     os._exit(0)
 
 
-main()
+if __name__ == "__main__":
+    main()
